@@ -690,7 +690,7 @@ Section Space.
   Proof.
     intros R S c n H. apply cinv_flush in H. destruct H as [Hl _]. unfold cache_prune. simpl in *.
     split; [|split].
-    - intros e He. apply Hl. eapply firstn_In. exact He.
+    - intros e He. apply Hl. rewrite <- (firstn_skipn n). apply in_or_app. now left.
     - intros x Hx. inversion Hx.
     - intros x Hx. inversion Hx.
   Qed.
@@ -711,7 +711,7 @@ Section Space.
     intros R S c en pcap k [Hl [Hp Hn]] H1. unfold cache_wpnf.
     destruct (en && (length (c_pnf K V c) <? pcap)); [|split; [exact Hl|split; [exact Hp|exact Hn]]]. simpl.
     split; [exact Hl|]. split; [exact Hp|].
-    intros x Hx Hd. rewrite app_assoc in Hx. apply in_app_iff in Hx.
+    intros x Hx Hd. simpl in Hx. rewrite app_assoc in Hx. apply in_app_iff in Hx.
     destruct Hx as [Hx|[Hx|[]]]; [now apply Hn|]. subst x. now left.
   Qed.
 
@@ -740,5 +740,192 @@ Section Space.
     unfold dirty_keys in Hc. simpl in Hc. destruct (skip f v) eqn:Es; simpl in Hc; [exact Hc|].
     rewrite (Hv k v n f (or_introl eq_refl) Es). apply cinvd_write; [|exact Hc].
     intro Hx. apply H1. now apply dirty_keys_in.
+  Qed.
+  (* ------------------------------------------------------------------ the space invariant *)
+  Variable f0 : K -> V.                      (* genesis values *)
+  Notation Sf := (ks_state keqb interp f0).
+
+  Record SpInv (en : bool) (hist : rounds) (R dbr : nat) (mem : rounds) (s : sp K V) : Prop := mkSpInv {
+    si_mods : mods_ok (s_mods K V s) mem;
+    si_cache : CInv R (Sf hist R) (s_cache K V s);
+    si_dis : cache_dis en (s_cache K V s);
+    si_db : forall k, Dbget (s_db K V s) k = Sf hist dbr k }.
+
+  (* the in-memory rounds are a prefix of the history after round R *)
+  Definition is_prefix (hist : rounds) (R : nat) (mem : rounds) : Prop :=
+    mem = firstn (length mem) (skipn R hist).
+
+  Lemma prefix_firstn : forall hist R mem off,
+    is_prefix hist R mem -> off <= length mem -> firstn off (skipn R hist) = firstn off mem.
+  Proof.
+    intros hist R mem off H Ho. unfold is_prefix in H.
+    transitivity (firstn off (firstn (length mem) (skipn R hist))); [|now rewrite <- H].
+    rewrite firstn_firstn. now replace (Nat.min off (length mem)) with off by lia.
+  Qed.
+
+  Lemma Sf_mem : forall hist R mem off k,
+    is_prefix hist R mem -> off <= length mem ->
+    Sf hist (R + off) k = match Walk (firstn off mem) k with
+                          | Some d => interp d
+                          | None => Sf hist R k
+                          end.
+  Proof.
+    intros hist R mem off k H Ho. rewrite ks_state_walk, (prefix_firstn _ _ _ _ H Ho).
+    now rewrite walk_lastrec.
+  Qed.
+
+  Lemma walk_firstn_none : forall ds n k, Walk ds k = None -> Walk (firstn n ds) k = None.
+  Proof.
+    intros ds n k H. rewrite <- (firstn_skipn n ds), walk_app in H.
+    destruct (Walk (skipn n ds) k); [discriminate|exact H].
+  Qed.
+
+  Lemma existsb_keqb : forall k l, existsb (keqb k) l = true -> In k l.
+  Proof.
+    intros k l H. apply existsb_exists in H. destruct H as [x [H1 H2]].
+    apply keqb_spec in H2. now subst.
+  Qed.
+
+  Notation Fall := (sp_fall K V keqb vempty is_empty nf_mode).
+  Notation Lookup := (sp_lookup K V D keqb interp vempty is_empty nf_mode).
+
+  Lemma sp_fall_ok : forall en pcap hist R dbr mem s k res s',
+    SpInv en hist R dbr mem s ->
+    Fall en pcap R dbr s k = (res, s') ->
+    SpInv en hist R dbr mem s' /\
+    (forall v, res = LOk v -> v = Sf hist R k) /\
+    (dbr = R -> exists v, res = LOk v) /\
+    (R < dbr -> res = LRetry \/ exists v, res = LOk v).
+  Proof.
+    intros en pcap hist R dbr mem s k res s' [Hm Hc Hd Hdb] H. unfold sp_fall in H.
+    assert (Hdis : forall c', (en = false -> c' = s_cache K V s) -> cache_dis en c').
+    { intros c' Hx He. rewrite (Hx He). now apply Hd. }
+    destruct (Cread (c_lru K V (s_cache K V s)) k) as [e|] eqn:Er.
+    - (* cache hit *)
+      inversion H; subst res s'. clear H. apply cread_some in Er. destruct Er as [Hin Hk].
+      destruct Hc as [Hl [Hp Hn]]. destruct (Hl e Hin) as [H1 [_ H3]].
+      assert (Hv : val e = Sf hist R (key e)) by (apply H3; tauto).
+      split; [|split; [|split]].
+      + constructor; simpl; [exact Hm| |
+          apply Hdis; intro He; unfold cache_wpend; now rewrite He | exact Hdb].
+        apply cinv_wpend; [now split|exact H1|exact Hv].
+      + intros v Hx. inversion Hx. now rewrite Hv, Hk.
+      + eauto.
+      + eauto.
+    - destruct (nf_mode && existsb (keqb k) (c_nf K V (s_cache K V s))) eqn:Enf.
+      + (* notFound hit *)
+        inversion H; subst res s'. clear H. apply andb_true_iff in Enf. destruct Enf as [_ Enf].
+        apply existsb_keqb in Enf. destruct Hc as [Hl [Hp Hn]].
+        split; [now constructor|]. split; [|split; eauto].
+        intros v Hx. inversion Hx; subst v.
+        destruct (Hn k) as [Hq|Hq]; [apply in_or_app; now left|tauto|now symmetry|contradiction].
+      + destruct (dbr =? R) eqn:Edb.
+        * apply Nat.eqb_eq in Edb. subst dbr.
+          destruct (nf_mode && is_empty (Dbget (s_db K V s) k)) eqn:Eemp.
+          -- inversion H; subst res s'. clear H. apply andb_true_iff in Eemp.
+             destruct Eemp as [_ Eemp]. apply is_empty_spec in Eemp. rewrite Hdb in Eemp.
+             split; [|split; [|split; eauto]].
+             ++ constructor; simpl; [exact Hm| |
+                  apply Hdis; intro He; unfold cache_wpnf; now rewrite He | exact Hdb].
+                now apply cinv_wpnf.
+             ++ intros v Hx. inversion Hx. now symmetry.
+          -- inversion H; subst res s'. clear H.
+             split; [|split; [|split; eauto]].
+             ++ constructor; simpl; [exact Hm| |
+                  apply Hdis; intro He; unfold cache_wpend; now rewrite He | exact Hdb].
+                apply cinv_wpend; [exact Hc|simpl; lia|simpl; apply Hdb].
+             ++ intros v Hx. inversion Hx. apply Hdb.
+        * apply Nat.eqb_neq in Edb. destruct (dbr <? R) eqn:Elt.
+          -- apply Nat.ltb_lt in Elt. inversion H; subst res s'.
+             split; [now constructor|]. split; [intros v Hx; discriminate|].
+             split; [intro; lia|intro; lia].
+          -- inversion H; subst res s'.
+             split; [now constructor|]. split; [intros v Hx; discriminate|].
+             split; [intro; congruence|intro; now left].
+  Qed.
+
+  Lemma sp_lookup_ok : forall en pcap hist R dbr mem s r k res s',
+    SpInv en hist R dbr mem s -> is_prefix hist R mem ->
+    Lookup en pcap R dbr mem s r k = (res, s') ->
+    SpInv en hist R dbr mem s' /\
+    (forall v, res = LOk v -> v = Sf hist r k) /\
+    (R <= r <= R + length mem ->
+       (dbr = R -> exists v, res = LOk v) /\ (R < dbr -> res = LRetry \/ exists v, res = LOk v)).
+  Proof.
+    intros en pcap hist R dbr mem s r k res s' Hinv Hpre H. unfold sp_lookup in H.
+    destruct (r <? R) eqn:E1.
+    { apply Nat.ltb_lt in E1. inversion H; subst. split; [exact Hinv|].
+      split; [intros v Hx; discriminate|intro; lia]. }
+    apply Nat.ltb_ge in E1.
+    destruct (length mem <? r - R) eqn:E2.
+    { apply Nat.ltb_lt in E2. inversion H; subst. split; [exact Hinv|].
+      split; [intros v Hx; discriminate|intro; lia]. }
+    apply Nat.ltb_ge in E2.
+    assert (Hr : r = R + (r - R)) by lia.
+    assert (HS := Sf_mem hist R mem (r - R) k Hpre E2). rewrite <- Hr in HS.
+    assert (Hmods := si_mods _ _ _ _ _ _ Hinv k).
+    assert (Hfall : forall res s', Fall en pcap R dbr s k = (res, s') ->
+              Walk (firstn (r - R) mem) k = None ->
+              SpInv en hist R dbr mem s' /\ (forall v, res = LOk v -> v = Sf hist r k) /\
+              (R <= r <= R + length mem ->
+                (dbr = R -> exists v, res = LOk v) /\ (R < dbr -> res = LRetry \/ exists v, res = LOk v))).
+    { intros res0 s0 Hf Hw. destruct (sp_fall_ok _ _ _ _ _ _ _ _ _ _ Hinv Hf) as [Ha [Hb [Hc Hd]]].
+      rewrite Hw in HS. split; [exact Ha|]. split; [|now split].
+      intros v Hv. rewrite HS. now apply Hb. }
+    destruct (Aget k (s_mods K V s)) as [[v n]|] eqn:Em.
+    - destruct (r - R =? length mem) eqn:E3.
+      + apply Nat.eqb_eq in E3. inversion H; subst res s'. rewrite E3, firstn_all in HS.
+        destruct (Walk mem k) as [d|]; [|discriminate]. inversion Hmods; subst.
+        split; [exact Hinv|]. split; [intros v' Hx; inversion Hx; now rewrite HS|].
+        intro; split; eauto.
+      + destruct (Walk (firstn (r - R) mem) k) as [d|] eqn:Ew.
+        * inversion H; subst res s'. split; [exact Hinv|].
+          split; [intros v' Hx; inversion Hx; now rewrite HS|]. intro; split; eauto.
+        * now apply Hfall.
+    - apply Hfall; [exact H|]. apply walk_firstn_none.
+      destruct (Walk mem k); [discriminate|reflexivity].
+  Qed.
+
+  (* getCreatorForRound *)
+  Notation CrLookup := (cr_lookup K V D keqb interp vempty).
+
+  Lemma cr_lookup_ok : forall en hist R dbr mem s r k res,
+    SpInv en hist R dbr mem s -> is_prefix hist R mem ->
+    CrLookup R dbr mem s r k = res ->
+    (forall v, res = LOk v -> v = Sf hist r k) /\
+    (R <= r <= R + length mem ->
+       (dbr = R -> exists v, res = LOk v) /\ (R < dbr -> res = LRetry \/ exists v, res = LOk v)).
+  Proof.
+    intros en hist R dbr mem s r k res Hinv Hpre H. unfold cr_lookup in H.
+    destruct (r <? R) eqn:E1.
+    { apply Nat.ltb_lt in E1. subst res. split; [intros v Hx; discriminate|intro; lia]. }
+    apply Nat.ltb_ge in E1.
+    destruct (length mem <? r - R) eqn:E2.
+    { apply Nat.ltb_lt in E2. subst res. split; [intros v Hx; discriminate|intro; lia]. }
+    apply Nat.ltb_ge in E2.
+    assert (Hr : r = R + (r - R)) by lia.
+    assert (HS := Sf_mem hist R mem (r - R) k Hpre E2). rewrite <- Hr in HS.
+    assert (Hmods := si_mods _ _ _ _ _ _ Hinv k).
+    assert (Hdb := si_db _ _ _ _ _ _ Hinv k).
+    set (dbq := if dbr =? R then LOk (Dbget (s_db K V s) k) else if dbr <? R then LErr 3 else LRetry) in H.
+    assert (Hq : Walk (firstn (r - R) mem) k = None ->
+              (forall v, dbq = LOk v -> v = Sf hist r k) /\
+              (R <= r <= R + length mem ->
+                (dbr = R -> exists v, dbq = LOk v) /\ (R < dbr -> dbq = LRetry \/ exists v, dbq = LOk v))).
+    { intro Hw. rewrite Hw in HS. unfold dbq. destruct (dbr =? R) eqn:Edb.
+      - apply Nat.eqb_eq in Edb. subst dbr. split; [|intro; split; eauto].
+        intros v Hx. inversion Hx. now rewrite HS.
+      - apply Nat.eqb_neq in Edb. destruct (dbr <? R) eqn:Elt.
+        + apply Nat.ltb_lt in Elt. split; [intros v Hx; discriminate|intro; split; intro; lia].
+        + split; [intros v Hx; discriminate|intro; split; [intro; congruence|intro; now left]]. }
+    destruct (r - R =? length mem) eqn:E3.
+    - apply Nat.eqb_eq in E3. rewrite E3, firstn_all in HS, Hq.
+      destruct (Aget k (s_mods K V s)) as [[v n]|] eqn:Em.
+      + subst res. destruct (Walk mem k) as [d|]; [|discriminate]. inversion Hmods; subst.
+        split; [intros v' Hx; inversion Hx; now rewrite HS|intro; split; eauto].
+      + subst res. apply Hq. destruct (Walk mem k); [discriminate|reflexivity].
+    - destruct (Walk (firstn (r - R) mem) k) as [d|] eqn:Ew.
+      + subst res. split; [intros v' Hx; inversion Hx; now rewrite HS|intro; split; eauto].
+      + subst res. now apply Hq.
   Qed.
 End Space.
